@@ -435,3 +435,41 @@ package k8s
 //@     invariant wf: wfCS(res) && fresh(res) && freshSep(res) && allKept() && !res.AllowAll
 //@     invariant pts: forall q v1.Protocol, n int :: {iset(res.AllowedProtocols[q].Ports)[n]}
 //@         pts(res, q, n) == (exists k int :: {np.Spec.Egress[k]} 0 <= k && k <= rangeindex && egressRulePts(np, k, dst, q, n))
+
+// ---------------------------------------------------------------------------------------------
+// The eval side of one policy: some rule matches the other end and contains the queried protocol/port (C03)
+// ---------------------------------------------------------------------------------------------
+
+//@ fun portsContain(rps []netv1.NetworkPolicyPort, dst Peer, protocol string, port string) bool = len(rps) == 0
+//@     || (exists q string :: isProto(q) && foldEq(q, protocol) && portMatch(rps, dst, q, atoiVal(port)))
+//@ pred validQuery(protocol string, port string) = !(protocol == "" && port == "") && 1 <= atoiVal(port) && atoiVal(port) <= 65535
+
+//@ func (*NetworkPolicy).IngressAllowedConn
+//@   hide peerMatch, portMatch
+//@   requires np != nil && np.NetworkPolicy != nil && realPeer(src) && realDst(dst) && validNP(np) && validQuery(protocol, port)
+//@   modifies *
+//@   ensures [C03] def: res1 == nil ==> (res0 == (exists k int :: {np.Spec.Ingress[k]} 0 <= k && k < len(np.Spec.Ingress)
+//@         && peerMatch(np, np.Spec.Ingress[k].From, src) && portsContain(np.Spec.Ingress[k].Ports, dst, protocol, port)))
+//@   loop 1:
+//@     invariant none: forall k int :: {np.Spec.Ingress[k]} (0 <= k && k <= rangeindex) ==>
+//@         !(peerMatch(np, np.Spec.Ingress[k].From, src) && portsContain(np.Spec.Ingress[k].Ports, dst, protocol, port))
+
+//@ func (*NetworkPolicy).EgressAllowedConn
+//@   hide peerMatch, portMatch
+//@   requires np != nil && np.NetworkPolicy != nil && realPeer(dst) && realDst(dst) && validNP(np) && validQuery(protocol, port)
+//@   modifies *
+//@   ensures [C03] def: res1 == nil ==> (res0 == (exists k int :: {np.Spec.Egress[k]} 0 <= k && k < len(np.Spec.Egress)
+//@         && peerMatch(np, np.Spec.Egress[k].To, dst) && portsContain(np.Spec.Egress[k].Ports, dst, protocol, port)))
+//@   loop 1:
+//@     invariant none: forall k int :: {np.Spec.Egress[k]} (0 <= k && k <= rangeindex) ==>
+//@         !(peerMatch(np, np.Spec.Egress[k].To, dst) && portsContain(np.Spec.Egress[k].Ports, dst, protocol, port))
+
+// C03 at policy level: membership of (protocol, port) in what list computes for a policy == what eval answers for it
+//@ lemma [C03] policyAgreeIngress(c *common.ConnectionSet, np *NetworkPolicy, src Peer, dst Peer, protocol string, port string)
+//@   reveal wfCS
+//@   requires wfCS(c) && 1 <= atoiVal(port) && atoiVal(port) <= 65535 && (exists q string :: isProto(q) && foldEq(q, protocol))
+//@   requires forall q v1.Protocol :: {foldEq(q, protocol)} {foldEq(protocol, q)} pts(c, q, atoiVal(port)) ==
+//@         (exists k int :: {np.Spec.Ingress[k]} 0 <= k && k < len(np.Spec.Ingress) && ingressRulePts(np, k, src, dst, q, atoiVal(port)))
+//@   ensures agree: (c.AllowAll || (exists q v1.Protocol :: q in c.AllowedProtocols && foldEq(protocol, q) && iset(c.AllowedProtocols[q].Ports)[atoiVal(port)]))
+//@         == (exists k int :: {np.Spec.Ingress[k]} 0 <= k && k < len(np.Spec.Ingress)
+//@              && peerMatch(np, np.Spec.Ingress[k].From, src) && portsContain(np.Spec.Ingress[k].Ports, dst, protocol, port))
